@@ -114,7 +114,13 @@ func (c01Suite) Gen(rng *Rng, tier string, w *bufio.Writer, stats *Stats) {
 	}
 	for level := 1; level <= 5; level++ {
 		g := newCyGen(rng, level)
-		for i := 0; i < perLevel; i++ {
+		count := perLevel
+		if tier == "thorough" && level >= 4 {
+			// levels 4-5 (expansions, OPTIONAL MATCH, quantifiers, multi-part pipelines) are the expensive ones for both evaluators
+			// and the ones whose differences need manual triage: thorough widens the graph families more than the query shapes
+			count = map[int]int{4: 250, 5: 120}[level]
+		}
+		for i := 0; i < count; i++ {
 			q := g.Query()
 			if tier == "thorough" && i%10 == 0 {
 				emit(fmt.Sprintf("gen:L%d", level), q, 3, 2)
